@@ -521,7 +521,7 @@ def run_cascade(ctx, binp, T, n_docs):
     body = ("From Coq Require Import String.\nLocal Open Scope string_scope.\n"
             "Definition cases : list (list (option nat * xelem) * list (list attr)) := [\n%s\n].\n"
             "Eval vm_compute in (bad_indices doc_case_ok cases).\n" % ";\n".join(coq_cases))
-    rc, out = ctx.coq_eval('k_cascade', body, ['Model.Base', 'Model.Corr', 'Gen.SvgTables', 'Model.Cascade'])
+    rc, out = ctx.coq_eval('k_cascade', body, ['Model.Base', 'Model.Corr', 'Gen.SvgTables', 'Model.CascadeBase', 'Model.Cascade'])
     bad = ctx.parse_N_list(out) if rc == 0 else None
     if bad is None:
         ctx.log("cascade: model evaluation failed:\n" + out[-1500:])
@@ -630,7 +630,7 @@ def run_find_attr(ctx, binp, T, n):
     body = ("From Coq Require Import String.\nLocal Open Scope string_scope.\n"
             "Definition cases : list (list xelem * list (AId * string * string)) := [\n%s\n].\n"
             "Eval vm_compute in (bad_indices find_case_ok cases).\n" % ";\n".join(coq_cases))
-    rc, out = ctx.coq_eval('k_findattr', body, ['Model.Base', 'Model.Corr', 'Gen.SvgTables', 'Model.Cascade'])
+    rc, out = ctx.coq_eval('k_findattr', body, ['Model.Base', 'Model.Corr', 'Gen.SvgTables', 'Model.CascadeBase', 'Model.Cascade'])
     bad = ctx.parse_N_list(out) if rc == 0 else None
     if bad is None:
         ctx.log("find-attr: model evaluation failed:\n" + out[-1500:])
